@@ -213,7 +213,7 @@ func (w *W) c17Judge(st *c01State, g string, doc []byte, nd bool) {
 func runC17(w *W) {
 	w.tapecheckSelfTest()
 	st := &c01State{}
-	scale := 4
+	scale := 10
 	if w.thorough() {
 		scale = 120
 	}
